@@ -2,18 +2,23 @@ import GffModel
 
 open GffModel
 
-partial def loop (hin : IO.FS.Stream) (hout : IO.FS.Stream) : IO Unit := do
+partial def loop (hin : IO.FS.Stream) (hout : IO.FS.Stream) (w : ProtoDb.World) : IO Unit := do
   let line ← hin.getLine
   if line.isEmpty then
     hout.flush
     return ()
   let ws := Proto.words (line.trimAscii.toString)
-  match ProtoAll.step ws with
-  | some out => hout.putStrLn out
-  | none => hout.putStrLn "bad-op"
-  loop hin hout
+  match ProtoDb.step w ws with
+  | some (w', out) =>
+    hout.putStrLn out
+    loop hin hout w'
+  | none =>
+    match ProtoAll.step ws with
+    | some out => hout.putStrLn out
+    | none => hout.putStrLn "bad-op"
+    loop hin hout w
 
 def main : IO Unit := do
   let hin ← IO.getStdin
   let hout ← IO.getStdout
-  loop hin hout
+  loop hin hout {}
